@@ -76,7 +76,9 @@ var idtDims = map[string][]string{
 	"sub":    {"ok", "missing", "empty"},
 	"sid":    {"present", "missing"},
 	"sidreq": {"1", "0"},
-	"acr":    {"missing", "empty", "substantial", "high", "other", "number"},
+	// othersub / othersuper / otherupper: relatives of the non-ID-porten level "other-acr" (a substring, an extension, another letter
+	// case): for levels outside the ID-porten table the token's acr must EQUAL the requested one
+	"acr": {"missing", "empty", "substantial", "high", "other", "number", "othersub", "othersuper", "otherupper"},
 	"acrcfg": {"", "substantial", "high", "Level3", "Level4", "other"},
 	"shape":  {"ok", "noidtoken", "notstring", "malformed"},
 	"jwks":   {"fresh", "stale"},
@@ -169,6 +171,12 @@ func acrString(v string) string {
 		return "idporten-loa-high"
 	case "other":
 		return "other-acr"
+	case "othersub":
+		return "other"
+	case "othersuper":
+		return "other-acr-2"
+	case "otherupper":
+		return "OTHER-ACR"
 	case "Level3", "Level4":
 		return v
 	}
